@@ -80,7 +80,7 @@ func genC17(rng *rand.Rand, tier string) *sim.Plan {
 		rounds = 2 + rng.IntN(4)
 	}
 	binaryCorr := chance(rng, 0.08) // Correlation Data that is not UTF-8 (it is binary data) may occur in this run
-	sparse := chance(rng, 0.4) // few subscriptions: nodes without any matching subscription are likely
+	sparse := chance(rng, 0.4)      // few subscriptions: nodes without any matching subscription are likely
 	for r := 0; r < rounds; r++ {
 		var sp sim.Phase
 		for n := 0; n < nn; n++ {
